@@ -136,8 +136,9 @@ def join_lines(lines):
 
 # ---------------------------------------------------------------- generation of valid documents
 class Gen:
-    def __init__(self, rng, nh=False, rich=True, nh_mixed=False):
+    def __init__(self, rng, nh=False, rich=True, nh_mixed=False, reorder=0.0):
         self.rng = rng
+        self.reorder = reorder        # probability that the lines of a group write their labels each in an order of its own
         self.nh = nh                  # False / True (a family is a native histogram with probability 0.4) / a probability
         self.nh_mixed = nh_mixed      # native-histogram families may also carry classic groups (C15)
         self.rich = rich
@@ -220,7 +221,8 @@ class Gen:
         if count == 1:
             return [self.labelset(avoid=avoid)]
         key = self.label_name(avoid=avoid)
-        extra = self.labelset(n=r.randrange(0, 2), avoid=[key] + list(avoid))
+        # (with `reorder`, more often two labels or more: the order of a single label cannot vary)
+        extra = self.labelset(n=r.randrange(0, 3 if self.reorder else 2), avoid=[key] + list(avoid))
         vals = []
         while len(vals) < count:
             v = self.label_value()
@@ -452,6 +454,36 @@ class Gen:
             f.groups.append([Sample('', ls, None, raw=raw)])
 
     def family(self, typ=None):
+        f = self._family(typ)
+        if self.reorder:
+            self.reorder_labels(f)
+        return f
+
+    def reorder_labels(self, f):
+        """The order in which a line writes its labels has no meaning: with probability `reorder` per group every
+        sample of the group gets its own label order (the group, the series and every rule stay what they were)."""
+        r = self.rng
+        for g in f.groups:
+            if r.random() < self.reorder:
+                for s in g:
+                    if len(s.labels) >= 2:
+                        s.labels = r.sample(s.labels, len(s.labels))
+
+    @staticmethod
+    def reordered_groups(doc):
+        """number of groups in which two lines write the labels they share in different orders"""
+        n = 0
+        for f in doc.families:
+            groups = [[s for g in f.groups for s in g]] if f.typ == 'info' else f.groups
+            for g in groups:
+                for a, b in zip(g, g[1:]):
+                    ka, kb = [k for k, _ in a.labels], [k for k, _ in b.labels]
+                    if [k for k in ka if k in kb] != [k for k in kb if k in ka]:
+                        n += 1
+                        break
+        return n
+
+    def _family(self, typ=None):
         r = self.rng
         typ = typ or r.choice(['counter', 'gauge', 'summary', 'histogram', 'gaugehistogram', 'info', 'stateset',
                                'unknown', 'untyped-sample'])
